@@ -88,8 +88,10 @@ fn parse_hex_key(s: &str) -> Result<[u8; KEY_SIZE], KeyParseError> {
     if s.len() == KEY_SIZE * 2 {
         let mut r = [0u8; KEY_SIZE];
         for i in 0..KEY_SIZE {
-            r[i] = u8::from_str_radix(&s[i * 2..i * 2 + 2], 16)
-                .map_err(KeyParseError::InvalidKeyChar)?;
+            // `str::get`, not `&s[..]`: a multi-byte character straddling the pair boundary must
+            // be an error (it is no hex digit), not a panic.
+            let digits = s.get(i * 2..i * 2 + 2).unwrap_or("\u{fffd}");
+            r[i] = u8::from_str_radix(digits, 16).map_err(KeyParseError::InvalidKeyChar)?;
         }
         Ok(r)
     } else {
